@@ -488,7 +488,7 @@ pub fn run_threads(w: &mut World, spec: &ThreadSpec) {
 
     // ---- the interleaved episode
     let baton = Arc::new((Mutex::new(Baton { turn: None, done: spec.scripts.iter().map(|s| s.is_empty()).collect(), free: false }), Condvar::new()));
-    let fine = spec.fine && crate::ffiyield::FFI_YIELD_POINTS > 0;
+    let fine = spec.fine;
     let yields_total = Arc::new(std::sync::atomic::AtomicU64::new(0));
     let mail = Arc::new(Mutex::new(vec![Vec::<KeyH>::new(); n]));
     let results: Arc<Mutex<Vec<Vec<String>>>> = Arc::new(Mutex::new(vec![Vec::new(); n]));
